@@ -52,7 +52,7 @@ def known_match(known, prop, ob):
 
 
 def tier_rank(t):
-    return {"quick": 0, "thorough": 1}[t]
+    return {"quick": 0, "thorough": 1, "fallback": 99}[t]   # fallback units run only on behalf of another unit
 
 
 def write_replay(prop, r: UnitResult, ob, native):
@@ -126,6 +126,15 @@ def check(prop, tier, props_meta):
     final = []
     for r in results:
         u = r.unit
+        if r.status == "undecided" and u.fallback and "extraction rule did not fire" in (r.reason or ""):
+            # the contracts no longer match the source text (refactored loop): the proof is undecided, but the bounded
+            # fall-back of the same harness can still find a counterexample; a passing fall-back leaves it undecided
+            fb = names.get(u.fallback)
+            if fb is not None:
+                rf = core.run_unit(fb)
+                if rf.status in ("violation", "internal_fail"):
+                    rf.reason = "bounded fall-back %s after: %s" % (fb.name, r.reason)
+                    final.append(rf)
         if r.status == "internal_fail":
             # proof no longer goes through: try to obtain a concrete counterexample from the bounded fall-back
             fb = names.get(u.fallback) if u.fallback else None
